@@ -117,3 +117,36 @@ define(_LEX.format(name='comment_body_31', budget=60, kind='hunt', parser='XPath
                    bound='XPath 3.1: 1 (: <x> :) + 2 for every comment body x of length <= 2 (not exhaustible: bug-hunting)'), globals())
 define(_LEX.format(name='braced_uri_31', budget=60, kind='hunt', parser='XPath31Parser', head="Q{", tail="}a", nfixed=1,
                    bound='XPath 3.1: Q{<x>}a for every x of length <= 2 (not exhaustible: bug-hunting)'), globals())
+
+
+# --- added after seeded-change review: whole-source strings of length <= 1 (including the empty source) and parser reuse ---------
+
+_WHOLE = '''
+@ob(budget={budget}, tbudget=900, kind={kind!r}, bound={bound!r}, funcs=['elementpath/tdop.py:Parser.parse', 'elementpath/tdop.py:Tokenizer'])
+def whole_source_{name}(x: str) -> bool:
+    """
+    pre: len(x) <= {maxlen}{extra}
+    post: _
+    """
+    p = {parser}()
+    try:
+        p.parse(x)
+    except ElementPathError:
+        pass
+    for f in FIXED:
+        try:
+            got = _tree(p.parse(f))
+        except ElementPathError:
+            return False
+        if got != _tree({parser}().parse(f)):
+            return False
+    return True
+'''
+define(_WHOLE.format(name='ascii1_31', budget=300, kind='main', parser='XPath31Parser', maxlen=1, extra=" and all(' ' <= c <= '~' for c in x)",
+                     bound='XPath 3.1: EVERY source string of length <= 1 over printable ASCII (including the empty string): parse returns or raises ElementPathError, then the instance parses 3 fixed expressions like a fresh one'), globals())
+define(_WHOLE.format(name='ascii1_10', budget=300, kind='main', parser='XPath1Parser', maxlen=1, extra=" and all(' ' <= c <= '~' for c in x)",
+                     bound='XPath 1.0: EVERY source string of length <= 1 over printable ASCII (including the empty string), then parser reuse'), globals())
+define(_WHOLE.format(name='len1_31', budget=90, kind='hunt', parser='XPath31Parser', maxlen=1, extra='',
+                     bound='XPath 3.1: every source string of length <= 1 over all code points (not exhausted in 300 s: bug-hunting), then parser reuse'), globals())
+define(_WHOLE.format(name='len2_31', budget=60, kind='hunt', parser='XPath31Parser', maxlen=2, extra='',
+                     bound='XPath 3.1: every source string of length <= 2 (not exhaustible: bug-hunting), then parser reuse'), globals())
